@@ -9,7 +9,7 @@ from common import qlit, natlit, lst, tup, coq_bad_indices, parallel_coq_bad, Co
 
 PROP = "C01"
 PROPERTY_FILE = "Properties/C01.v"
-GEN_DEPS = ["GenC01Trunc"]
+GEN_DEPS = ["GenC01Trunc", "GenTieChain", "GenTieChain2d", "GenC01ChainR", "GenC09Hem", "GenC09Merton", "GenC09Vg", "GenC09Trunc"]   # GenTieChain/GenTieChain2d (specs/TIE.py) + GenC01ChainR (specs/C01.py): loops regenerated from the source; GenC09*: closed forms the R chain is instantiated with
 RULE = ("cases: TruncatedLevyMeasure.integrate(a,b) with [a,b] inside / outside / straddling / covering the truncation (clipping branch, "
         "exact); chains MarkovChainProcess(StepModel, INVERSION, grid) on dyadic grids built by make_grid / "
         "create_from_fixed_nb_of_points / CTMCCredit, 3..60 states per side, refined 0..4 times, step measures with 1..8 pieces whose "
@@ -23,32 +23,62 @@ RULE = ("cases: TruncatedLevyMeasure.integrate(a,b) with [a,b] inside / outside 
         "one-sided), fresh / refined before use / used-refined in place-used: intensity, the 3^d-1 boxes, LevyCopulaModel.mass of EVERY "
         "non-origin cell (cell from the grid's own n-d left_point/right_point/middle) exactly against Model/Chain.v / Model/Chain3d.v, "
         "sampler probability of every state; second stream: HEM/Merton/VG/CGMY on all six grid types (probability-step grids at level 0 "
-        "AND, same object refined in place, level 1) against an independent quadrature of the model's density per cell (tolerance).  "
+        "AND, same object refined in place, level 1) against an independent quadrature of the model's density per cell (tolerance); wave 6: the ALIAS and TABLE rate paths "
+        "(MarkovChainProcess(StepModel, ALIAS / TABLE, grid) on random dyadic / fixed-size grids refined 0..2 times): create_vec_jump_matrix's vector and the "
+        "probability the sampler's OWN tables (alias J,q; table 256 slots + embedded alias) give every state, against Model/Factory.v vec_jump of "
+        "the model's rate vector and intensity (Coq group jumpvec, tolerance 2^-40) and against the independent Fraction mass/intensity (oracle); stream hemR: MarkovChainProcess(HEMModel, "
+        "INVERSION, CTMCGrid) on random dyadic axes (1..4 states per side, optionally refined), dyadic parameters: every entry of create_q_vector and "
+        "intensity_of_jumps against the R model (generated create_q_vector / compute_intensity_of_jumps_1d over R, hem_integrate, truncated_interval) by one "
+        "interval-arithmetic lemma each, |model - float| <= 1e-12.  "
         "non-trivial = distinct chain with >= 2 states on a side")
 MODELLED = ["numpy arrays as lists of Q, np.zeros/enumerate loop of create_q_vector, itertools.product of the 3 intervals per dimension "
             "(dimension 1, 2, 3: intensity1 / intensity2 / intensity3, the 3^d-1 boxes in itertools.product order)",
             "LevyMeasure.integrate as an abstract additive non-negative interval function `mass` over Q (Section Measure); the "
-            "concrete closed forms of HEM/Merton/VG/CGMY are C09's business and are exercised here with a tolerance only",
+            "concrete closed forms of HEM/Merton/VG are C09's business: composed over R since wave 6 (see below); the implementation's rates for "
+            "HEM/Merton/VG/CGMY are exercised here with a tolerance (independent quadrature)",
             "copula chains: LevyCopulaModel.mass as an abstract box mass `mass2` / `mass3` additive per coordinate and non-negative on "
             "boxes avoiding the origin (Sections Measure2d / Measure3d); discharged (all boxes) for the harness's density tables "
             "(C01_table_mass3_is_a_measure, C01_table_chain_3d); for Clayton / real margins: oracle with tolerance only",
             "n-d right_point: the implementation clamps every axis with len(axes[0]) (spatial.py FIXME), the model with the axis' own "
             "length; equal for axes of equal length, the only ones the library's constructors build and the correspondence drives",
             "samplers other than INVERSION: only the rates they are built from (create_q_vector on the grid object) and, for Huffman, "
-            "the leaf probabilities are observed here; their sampling law is C02's business"]
+            "the leaf probabilities are observed here; their sampling law is C02's business",
+            "wave 6 -- loops REGENERATED FROM THE SOURCE and linked by theorem: create_q_vector (np.zeros + enumerate loop + conditional store), "
+            "compute_intensity_of_jumps for a 1-d and a 2-d model (itertools.product / next / block loop unrolled), CTMCGrid.left_point / right_point / "
+            "middle are Gen/GenTieChain.v, Gen/GenTieChain2d.v (specs/TIE.py, loop plug-in); Proofs/Tie_Chain.v, Tie_Chain2d.v prove them equal to "
+            "Model/Grid.v / Model/Chain.v (C01_gen_*_is_model) and C01_gen_chain_rates / C01_gen_sum_rates_is_intensity_2d state the chain theorems "
+            "about the generated definitions",
+            "wave 6 -- the 1-d chain OVER THE REALS: Model/ChainR.v (twin of Model/Grid.v + Model/Chain.v over R), Gen/GenC01ChainR.v = the same four "
+            "functions + compute_intensity_of_jumps (1-d) regenerated over R (specs/C01.py), equal to the hand model by theorem; the truncated measure "
+            "is C09's truncated_integrate around the generated truncated_interval (incl. the a > b and aa == bb branches); `mass` is instantiated with "
+            "the generated closed forms hem_integrate / merton_integrate / vg_integrate and the generated densities hem_nu / merton_nu / vg_nu",
+            "wave 6 -- create_vec_jump_matrix as Model/Factory.v vec_jump (C02's model; R twin jump_vectorR in Model/ChainR.v); AliasMethod / "
+            "TableMethod as C02's Model/Alias.v / Model/Table.v (composed read-only in Proofs/C01_Factory.v)"]
 ASSUMPTIONS = ["mass a b = nu([a,b]) is additive and non-negative ON INTERVALS NOT CONTAINING 0 (finite for every Levy measure, also VG/CGMY) "
                "and respects == : hypotheses of Section Measure; discharged for the harness's step measures by "
-               "C01_step_mass_is_a_measure; for the model families they are what C09 is about, but C09 is over R and is NOT formally "
-               "composed with these Q theorems",
+               "C01_step_mass_is_a_measure; for HEM, Merton and VG (infinite activity) they are DISCHARGED over R by composition with C09 "
+               "(C01_hem_chain_rates, C01_merton_chain_rates, C01_vg_chain_rates: no hypothesis on the mass left; parameters in their natural "
+               "ranges, erf / exp1 as in Base/RSpecial.v, VG: the float-infinity sentinel INF beyond the truncation range); CGMY: not composed "
+               "(C09's CGMY theorems are relative to an abstract incomplete-gamma function)",
                "mass2 / mass3 (LevyCopulaModel.mass) additive under a split of one coordinate interval, non-negative and ==-respecting "
                "on boxes avoiding the origin: hypotheses of Sections Measure2d / Measure3d; discharged for 3-d density tables by "
                "C01_table_mass3_is_a_measure (C12 is about the real copulas; not formally composed)",
                "grid.middle lies strictly inside a gap, middle(x,x)=x at the two (non-zero) end points and respects == (proved only for "
                "the arithmetic mean; for the probability-step grid checked by the oracle per state)"]
 THEOREM_NOTES = {
-    "number system": "theorems are proved over Q inside a Section with an abstract additive non-negative interval mass "
-                     "`mass : Q -> Q -> Q` (simplification of DESIGN 2.1: no Num record / R instance); composing with C09's real-valued "
-                     "closed forms needs the same proof replayed over R (the proofs use only field/order reasoning: lra, induction)",
+    "number system": "Sections Measure / Measure2d / Measure3d are over Q with an abstract mass; wave 6 replays the 1-d theorems over R "
+                     "(C01_chain_R: tiling, rates >= 0, sum = intensity; Leibniz equality, lra) and instantiates the mass with real closed forms "
+                     "(C01_density_chain_rates for ANY density with a closed form on the origin-free sub-intervals of the truncation range; instances "
+                     "HEM, Merton, VG via C09's is_RInt theorems about the generated definitions).  Dimension 2/3 are not replayed over R",
+    "C01_hem_chain_rates": "full for the 1-d HEM chain with the arithmetic-mean middle: statements are about the GENERATED create_q_vector / "
+                           "compute_intensity_of_jumps_1d / middle (over R), hem_nu, hem_integrate, truncated_interval; each non-origin rate is_RInt of "
+                           "the density over the state's cell; rates >= 0; origin rate 0; sum = generated intensity = integral over [x_0,h_l] + [h_r,x_n]. "
+                           "Not covered: the probability-step middle; floats (R is exact arithmetic)",
+    "C01_alias_table_chain_law": "composition with C02 (alias_law, table_law): the hypotheses `nonneg p`, `qsum p == 1` of C02 are discharged for the "
+                                 "factory's vector of any admissible chain with intensity > 0 (C01_factory_vector_is_distribution); TABLE: the idealised "
+                                 "table_mass of C02_table_law (slot byte and alias uniform independent), not the exact 32-bit word count; over Q",
+    "C01_gen_sum_rates_is_intensity_2d": "2-d: only the intensity is regenerated from the source (GenTieChain2d); the per-cell rates of a copula chain are "
+                                         "not computed by a loop in samplingfactory.py (the samplers call model.mass per cell) and stay the hand model q_matrix2",
     "C01_sum_rates_is_intensity_2d": "proved for dimension 2 (any two admissible axes sharing the origin index; rectangle mass additive per "
                                      "coordinate and non-negative on boxes avoiding the origin), with C01_cells_tile_2d and C01_rates_nonneg_2d; "
                                      "tied by the exact groups chain2d (equal axes) and chain2d_axes (different axes, CTMCCredit with different "
@@ -59,23 +89,35 @@ THEOREM_NOTES = {
                                      "middle); tied by the exact group chain3d through the real MarkovChainLevyCopula / _mass_3d. Dimension "
                                      "> 3 (_mass_nd) is not modelled",
 }
-LEVEL_TEXT = ("Proof: 20 Coq theorems/examples (closed under the global context): for every admissible axis of any length, any middle function "
+LEVEL_TEXT = ("Proof: 39 Coq theorems/examples (Q part closed under the global context; R part: the standard axioms of the Coq reals, classical "
+              "logic, functional extensionality): for every admissible axis of any length, any middle function "
               "with the stated properties and any interval mass that is additive and non-negative away from the origin, the cells of the non-origin states tile "
               "[x_0,x_n] minus the central cell with shared end points and no overlap, every state lies in its cell, every rate is "
               ">= 0, and the sum of create_q_vector equals compute_intensity_of_jumps (telescoping); the truncated measure is the mass "
               "of the intersection and is again additive/non-negative, so the same holds for what MarkovChainProcess builds; the same "
               "three statements (tiling, non-negativity, sum of all rates = the 3^d-1 boxes) for the product grids of copula chains in "
               "dimension 2 and 3 on any admissible axes sharing the origin index, for any box mass additive per coordinate away from the "
-              "origin, and with no mass hypothesis at all for 3-d density tables; "
-              "_truncated_interval is re-translated from the source on every run. Tied to /repo by exact vm_compute correspondence "
-              "on dyadic step-measure chains (incl. grid objects refined in place, CouplingMarkovChain.next_level, non-INVERSION sampler "
-              "paths) and on 2-d/3-d density-table copula chains with unequal axes. Partial: the concrete model families and the "
-              "real copulas (Clayton) are covered by the oracle with tolerance, not by theorems; the probability-step middle is not a "
-              "proved instance of `mid`.")
-LEVEL_NOTE = ("Trusted: Coq kernel + vm_compute; py2coq; floats modelled as Q (exact on dyadic inputs); the Section hypotheses on `mass` "
-              "(C09), `mass2`/`mass3` (C12) and `mid`.")
-TECHNIQUE = ("Coq proof over Q (telescoping induction axis by axis, lra) inside Sections Measure / Measure2d / Measure3d + py2coq for the "
-             "truncation + exact vm_compute correspondence on StepMeasure chains and 2-d/3-d density-table copula chains")
+              "origin, and with no mass hypothesis at all for 3-d density tables.  Wave 6: (a) create_q_vector, compute_intensity_of_jumps (1-d, 2-d), "
+              "left_point / right_point / middle are regenerated from the source on every run (loop plug-in) and proved equal to the hand models; the "
+              "chain theorems are restated about the generated definitions; (b) the 1-d theorems are replayed over R and COMPOSED with C09: for "
+              "HEM, Merton and VG (generated densities and closed forms) every rate of the generated rate vector IS the integral of the density "
+              "over the state's cell, is >= 0, and the rates sum to the generated intensity -- no hypothesis on the mass is left; (c) composed "
+              "with C02: the vector create_vec_jump_matrix hands to ALIAS / TABLE is a probability vector and both samplers give state k the "
+              "probability mass(cell k)/intensity.  _truncated_interval is re-translated from the source on every run (Q and R).  Tied to /repo by "
+              "exact vm_compute correspondence on dyadic step-measure chains (incl. grid objects refined in place, CouplingMarkovChain.next_level, "
+              "non-INVERSION sampler paths, ALIAS / TABLE vectors and tables with tolerance 2^-40) and on 2-d/3-d density-table copula chains with "
+              "unequal axes. Partial: CGMY and the real copulas (Clayton) are covered by the oracle with tolerance, not by theorems; the R model of "
+              "the HEM chain is tied to /repo through the generated definitions AND by interval lemmas on the real MarkovChainProcess (every rate and the "
+              "intensity within 1e-12); the Merton / VG R chains only through the generated definitions and C09's correspondence of the closed forms "
+              "(their implementation rates are compared with an independent quadrature, tolerance); "
+              "the probability-step middle is not a proved instance of `mid`.")
+LEVEL_NOTE = ("Trusted: Coq kernel + vm_compute; py2coq and its loop plug-in; floats modelled as Q (exact on dyadic inputs) resp. R; the Section "
+              "hypotheses on `mass` (discharged for step measures, and over R for HEM / Merton / VG by C09), `mass2`/`mass3` (C12) and `mid`; "
+              "erf / exp1 as specified in Base/RSpecial.v.")
+TECHNIQUE = ("Coq proof over Q (telescoping induction axis by axis, lra) inside Sections Measure / Measure2d / Measure3d, replayed over R and "
+             "composed with C09 (Coquelicot is_RInt) and C02 (alias / table laws) + py2coq (truncation; loops of create_q_vector / "
+             "compute_intensity_of_jumps over Q and R, each proved equal to its hand model) + exact vm_compute correspondence on StepMeasure "
+             "chains and 2-d/3-d density-table copula chains")
 
 def ps_lit(nu):
     return nu.coq()
@@ -269,9 +311,11 @@ def correspond(res):
     groups.append(_table_chain_group(res, rng, viol, 4 if not thorough else 30))
     groups.append(_table_chain_nd_group(res, rng, viol, 3, 4 if not thorough else 20))
     groups.append(_table_chain_nd_group(res, rng, viol, 2, 6 if not thorough else 40))
+    groups.append(_alias_table_stream(res, rng, viol, 40 if not thorough else 400))
+    _hem_R_stream(res, rng, viol, 4 if not thorough else 30)
 
     header = ("From Coq Require Import ZArith QArith Qabs List Bool.\nFrom RV Require Import Base.QB Model.Grid Gen.GenC01Trunc Model.Chain "
-              "Model.Chain3d.\nOpen Scope Q_scope.")
+              "Model.Chain3d Model.Bst Model.Factory.\nOpen Scope Q_scope.")
     res.case_lemmas += len(groups)
     for gname, ty, chk, cases in groups:
         if not cases:
@@ -374,6 +418,182 @@ def _reuse_stream_1d(res, rng, viol, q_cases, n_objects):
                         break
             if how == "direct" and lvl < n_ref:
                 grid.refine()
+
+
+def _alias_implied(J, q):
+    """probability each index is returned by AliasMethod._draw_with_u for a uniform u: column x of width 1/K gives x with q[x], J[x] else"""
+    K = len(q)
+    out = [float(q[k]) for k in range(K)]
+    for x in range(K):
+        out[int(J[x])] += 1.0 - float(q[x])
+    return [v / K for v in out]
+
+
+def _alias_table_stream(res, rng, viol, n_chains):
+    """wave 6 -- the ALIAS and TABLE rate paths of create_sampling_method: MarkovChainProcess(model, SamplingMethod.ALIAS / TABLE, grid)
+    on dyadic step-measure chains (random dyadic axes, create_from_fixed_nb_of_points, grid objects refined 0..2 times):
+    create_q_vector -> create_vec_jump_matrix -> AliasMethod / TableMethod.  Observed: create_vec_jump_matrix's vector (Coq group
+    jumpvec: Model/Factory.v vec_jump of Model/Chain.v's rate vector and intensity, tolerance 2^-40 for the float division) and the
+    probability each sampler's OWN tables give every state (alias: J, q; table: the 256 slots + the embedded alias), against the
+    model's vector in the same Coq group and against the independent Fraction mass / intensity here (oracle)."""
+    from rpylib.distribution.samplingfactory import create_q_vector, create_vec_jump_matrix
+    from rpylib.process.markovchain.markovchain import MarkovChainProcess
+    from rpylib.distribution.sampling import SamplingMethod
+    from stepmeasure import StepModel, random_step_measure, random_dyadic_axis, make_grid, step_spec
+    from props.C13 import build_fixed
+    import warnings
+    cases = []
+    for it in range(n_chains):
+        if rng.random() < 0.7:
+            h = Fr(rng.choice([1, 1, 2, 3]), rng.choice([2, 4, 8]))
+            axis, o = random_dyadic_axis(rng, rng.randrange(1, 9), rng.randrange(1, 9), h)
+            grid = make_grid(axis, o, h)
+            src = "random"
+        else:
+            h = Fr(rng.choice([1, 3]), rng.choice([2, 4, 8]))
+            grid = build_fixed(float(h), rng.randrange(2, 24), 1)
+            src = "fixed"
+        levels = rng.choice([0, 0, 1, 2]) if len(grid.axes[0]) <= 13 else rng.choice([0, 1])
+        for _ in range(levels):
+            grid.refine()
+        ax = grid.axes[0]
+        axis0 = [Fr(float(x)) for x in ax]
+        n, o = len(ax), grid.origin_coordinate.value
+        supp = rng.choice(["cover", "cover", "inside"])
+        lo, hi = (axis0[1], axis0[-2]) if supp == "inside" and n > 4 else (axis0[0], axis0[-1])
+        nu = random_step_measure(rng, lo, hi, bits=rng.choice([2, 3]), cover=True)
+        model = StepModel(nu, a=0.25, sigma=0.5)
+        _, cells = independent_cells(ax, o)
+        want_m = {k: nu.moment_q(max(c[0], axis0[0]), min(c[1], axis0[-1]), 0) for k, c in enumerate(cells) if c is not None}
+        tot = sum(want_m.values())
+        if tot == 0:
+            res.bump("alias_table", "zero-intensity chain skipped")
+            continue
+        base = dict(kind="alias_table", measure=step_spec(nu), axis=[float(x) for x in ax], o=o, h=float(grid.h), levels=levels, src=src)
+        per_method = {}
+        pv = lam = None
+        ok = True
+        for method in ("ALIAS", "TABLE"):
+            ctx = dict(base, method=method)
+            try:
+                with warnings.catch_warnings():
+                    warnings.simplefilter("ignore")
+                    chain = MarkovChainProcess(model=model, method=SamplingMethod[method], grid=grid)
+                    q = create_q_vector(chain.model.levy_triplet.nu, grid)
+                    lam = chain.intensity_of_jumps
+                    pv = create_vec_jump_matrix(q_vector=q, init_state=grid.origin_coordinate, intensity_of_jumps=lam)
+                    smp = chain.sampling
+                    if method == "ALIAS":
+                        probs = _alias_implied(smp.J, smp.q)
+                    else:
+                        Jt = [int(x) for x in smp.J]
+                        inner = _alias_implied(smp.alias_method.J, smp.alias_method.q) if smp.alias_method is not None else [0.0] * n
+                        rest = sum(1 for x in Jt if x < 0) / 256.0
+                        if len(Jt) != 256:
+                            viol("TableMethod built by the factory does not have 256 slots", slots=len(Jt), **ctx)
+                        probs = [sum(1 for x in Jt if x == k) / 256.0 + rest * inner[k] for k in range(n)]
+            except Exception as e:  # noqa
+                viol(f"building the {method} chain raises {type(e).__name__}", reason=str(e)[:200], **ctx)
+                ok = False
+                break
+            res.count(("alias_table", it, method), nontrivial=o >= 2 and n - o - 1 >= 2, kind=f"{method} rate path (step chain, {src})")
+            res.bump("alias_table", f"{method}/levels={levels}")
+            if Fr(float(lam)) != tot:
+                viol("intensity_of_jumps is not the total mass of the cells of the non-origin states", got=float(lam), want=str(tot), **ctx)
+            if pv[o] != 0.0 or abs(float(np.sum(pv)) - 1.0) > 1e-12 or min(pv) < 0:
+                viol("create_vec_jump_matrix's vector is not a probability vector with zero origin entry", sum=float(np.sum(pv)), **ctx)
+            for k in range(n):
+                w = float(want_m[k] / tot) if k != o else 0.0
+                if abs(probs[k] - w) > 1e-12:
+                    viol(f"{method} sampler's own tables do not give a state the probability (mass of its cell)/intensity",
+                         state=k, got=probs[k], want=w, **ctx)
+                    break
+            per_method[method] = probs
+        if not ok or len(per_method) != 2:
+            continue
+        pl = lambda v: lst([f"({natlit(k)}, {qlit(float(x))})" for k, x in enumerate(v)])
+        cases.append(f"({ps_lit(nu)}, {axis_lit(ax)}, {natlit(o)}, {qlit(float(lam))}, {lst([qlit(float(x)) for x in pv])}, "
+                     f"{pl(per_method['ALIAS'])}, {pl(per_method['TABLE'])})")
+    ty = "list (Q * Q * Q) * list Q * nat * Q * list Q * list (nat * Q) * list (nat * Q)"
+    chk = ("fun c => match c with (ps, xs, o, lam, pv, ap, tp) => let p := vec_jump (chain_q_vector ps xs o) lam o in "
+           "Qeq_bool lam (chain_intensity ps xs o) && Nat.eqb (length pv) (length p) && "
+           "forallb (fun kp => Qle_bool (Qabs (snd kp - nth (fst kp) p 0)) (1 # 1099511627776)) "
+           "(combine (seq 0 (length pv)) pv ++ ap ++ tp) end")
+    return ("jumpvec", ty, chk, cases)
+
+
+def _rlit(x):
+    """exact real literal of a float / Fraction for a Coq R term"""
+    f = Fr(x)
+    return f"({f.numerator} / {f.denominator})" if f.denominator != 1 else f"({f.numerator})"
+
+
+def _hem_R_stream(res, rng, viol, n_chains):
+    """wave 6 -- the R model of the HEM chain (Model/ChainR.v + the GENERATED GenC01ChainR.create_q_vector / compute_intensity_of_jumps_1d,
+    GenC09Hem.hem_integrate, GenC09Trunc.truncated_interval: the objects of C01_hem_chain_rates) against the implementation:
+    MarkovChainProcess(HEMModel, INVERSION, CTMCGrid) on random dyadic axes (optionally refined once); every entry of
+    create_q_vector(truncated HEM measure, grid) and intensity_of_jumps become one interval-arithmetic lemma
+    |model - implementation's float| <= 1e-12 (Coq `interval`, 80 bits)."""
+    from rpylib.distribution.samplingfactory import create_q_vector
+    from rpylib.model.levymodel.mixed.hem import HEMModel, HEMParameters
+    from common import coq_eval_file
+    from stepmeasure import random_dyadic_axis, make_grid
+    import warnings
+    lemmas, n_l = [], 0
+    for it in range(n_chains):
+        h = Fr(rng.choice([1, 1, 3]), rng.choice([2, 4, 8]))
+        axis, o = random_dyadic_axis(rng, rng.randrange(1, 5), rng.randrange(1, 5), h)
+        grid = make_grid(axis, o, h)
+        if rng.random() < 0.4:
+            grid.refine()
+        lam, p = Fr(rng.randrange(1, 13), 4), Fr(rng.randrange(1, 8), 8)
+        e1, e2 = Fr(rng.randrange(5, 41), 4), Fr(rng.randrange(2, 41), 4)
+        model = HEMModel(HEMParameters(sigma=0.2, p=float(p), eta1=float(e1), eta2=float(e2), intensity=float(lam)))
+        ctx = dict(kind="hemR", axis=[float(x) for x in grid.axes[0]], lam=float(lam), p=float(p), eta1=float(e1), eta2=float(e2))
+        try:
+            with warnings.catch_warnings():
+                warnings.simplefilter("ignore")
+                chain = build_chain(model, grid)
+                q = create_q_vector(chain.model.levy_triplet.nu, grid)
+                lam_h = chain.intensity_of_jumps
+        except Exception as e:  # noqa
+            viol(f"building the HEM chain raises {type(e).__name__}", reason=str(e)[:200], **ctx)
+            continue
+        ax = [Fr(float(x)) for x in grid.axes[0]]
+        n, o = len(ax), grid.origin_coordinate.value
+        if min(q) < 0 or q[o] != 0 or abs(float(np.sum(q)) - lam_h) > 1e-12 * max(1.0, lam_h):
+            viol("HEM chain: a rate is negative, the origin rate is not 0 or the rates do not sum to the intensity", **ctx)
+        xs = "[" + "; ".join(_rlit(x) for x in ax) + "]"
+        m = f"(truncated_integrate (hem_integrate 1000000 {_rlit(lam)} {_rlit(p)} {_rlit(e1)} {_rlit(e2)}) (headR xs) (lastR xs))"
+        unf = "unfold xs, cell_loR, cell_hiR, h_leftR, h_rightR, left_pointR, right_pointR, GenC01ChainR.middle, amidR, nthR, headR, lastR; simpl"
+        for k in range(n):
+            if k == o:
+                continue
+            res.count(("hemR", it, k), kind="R model of the HEM chain vs implementation (interval lemma)")
+            lemmas.append(
+                f"Lemma case_{n_l} : let xs := {xs} in\n  Rabs (nthR (GenC01ChainR.create_q_vector {m} GenC01ChainR.middle xs (Z.of_nat {o})) {k}"
+                f" - {_rlit(float(q[k]))}) <= 1 / 1000000000000.\nProof.\n  intros xs. rewrite genR_q_entry by (simpl; lia). {unf}.\n"
+                f"  rewrite {'hem_rate_neg' if k < o else 'hem_rate_pos'} by lra. interval with (i_prec 80).\nQed.")
+            n_l += 1
+        res.count(("hemR", it, "intensity"), kind="R model of the HEM chain vs implementation (interval lemma)")
+        lemmas.append(
+            f"Lemma case_{n_l} : let xs := {xs} in\n  Rabs (GenC01ChainR.compute_intensity_of_jumps_1d {m} GenC01ChainR.middle xs (Z.of_nat {o})"
+            f" - {_rlit(float(lam_h))}) <= 1 / 1000000000000.\nProof.\n  intros xs. rewrite genR_compute_intensity_of_jumps_1d_eq_model. unfold intensity1R. {unf}.\n"
+            f"  rewrite hem_intensity_eval by lra. interval with (i_prec 80).\nQed.")
+        n_l += 1
+        res.bump("hemR_axis_len", n)
+    header = ("From Coq Require Import ZArith Reals List Lia Lra.\nFrom Interval Require Import Tactic.\n"
+              "From RV Require Import Base.RB Gen.GenC09Trunc Gen.GenC09Hem Model.LevyClosedForms Model.ChainR Gen.GenC01ChainR Proofs.C01_ChainR.\n"
+              "Import ListNotations.\nOpen Scope R_scope.\n")
+    res.case_lemmas += 1
+    if not lemmas:
+        res.broke("correspondence hemR", "the generator produced no case for this group")
+        return
+    rc, out = coq_eval_file(PROP, "cases_hemR", header + "\n".join(lemmas) + "\n", timeout=600)
+    if rc != 0:
+        res.broke("correspondence hemR", f"an interval lemma |R model - implementation| <= 1e-12 of the HEM chain fails ({n_l} lemmas): {out[-1500:]}")
+    else:
+        res.case_ok += 1
 
 
 def _quad_mass(nu, lo, hi):
@@ -958,6 +1178,39 @@ def replay(path):
         _copula_stream(type("R", (), {"count": lambda *a, **kw: None})(), random.Random(0),
                        lambda what, **kw: out.append((what, kw.get("state"), kw.get("got"), kw.get("want"))), configs=data.get("configs"))
         print("still fails:" if out else "no failure on replay", out[:3])
+        return 1 if out else 0
+    if data.get("kind") == "alias_table":
+        # wave 6: the ALIAS / TABLE rate path on the recorded (already refined) axis
+        from rpylib.distribution.samplingfactory import create_vec_jump_matrix
+        from rpylib.process.markovchain.markovchain import MarkovChainProcess
+        from rpylib.distribution.sampling import SamplingMethod
+        model = build_model(data["measure"])
+        nu = model.levy_triplet.nu
+        axis, o, method = data["axis"], data["o"], data["method"]
+        grid = make_grid([Fr(x) for x in axis], o, Fr(data["h"]))
+        chain = MarkovChainProcess(model=model, method=SamplingMethod[method], grid=grid)
+        q = create_q_vector(chain.model.levy_triplet.nu, grid)
+        lam = chain.intensity_of_jumps
+        pv = create_vec_jump_matrix(q_vector=q, init_state=grid.origin_coordinate, intensity_of_jumps=lam)
+        smp, n = chain.sampling, len(axis)
+        if method == "ALIAS":
+            probs = _alias_implied(smp.J, smp.q)
+        else:
+            Jt = [int(x) for x in smp.J]
+            inner = _alias_implied(smp.alias_method.J, smp.alias_method.q) if smp.alias_method is not None else [0.0] * n
+            rest = sum(1 for x in Jt if x < 0) / 256.0
+            probs = [sum(1 for x in Jt if x == k) / 256.0 + rest * inner[k] for k in range(n)]
+        ax, cells = independent_cells(axis, o)
+        want = {k: nu.moment_q(max(c[0], ax[0]), min(c[1], ax[-1]), 0) for k, c in enumerate(cells) if c is not None}
+        tot = sum(want.values())
+        out = []
+        if Fr(float(lam)) != tot:
+            out.append(f"intensity {lam} != total cell mass {float(tot)}")
+        if pv[o] != 0.0 or abs(float(np.sum(pv)) - 1.0) > 1e-12 or min(pv) < 0:
+            out.append(f"create_vec_jump_matrix's vector is not a probability vector: sum {float(np.sum(pv))}")
+        out += [f"state {k}: {method} tables give {probs[k]}, mass/intensity = {float(want[k] / tot) if k != o else 0.0}" for k in range(n)
+                if abs(probs[k] - (float(want[k] / tot) if k != o else 0.0)) > 1e-12]
+        print("still fails:" if out else "no failure on replay", out[:5])
         return 1 if out else 0
     if data.get("kind") not in ("step", "real"):
         print("replay: re-run ./check C01")
